@@ -20,6 +20,7 @@ Symp2Names  == {"BSgate", "S2gate", "CXgate", "CZgate", "MZgate"}
 SympNNames  == {"GaussianTransform", "Interferometer"}   \* p = <<S>>: explicit symplectic matrix (local xxpp over the targets); p = <<U>>: complex unitary
 DispNames   == {"Dgate", "Xgate", "Zgate"}
 ChanNames   == {"LossChannel", "ThermalLossChannel"}
+MBNames     == {"MSgate"}      \* measurement-based squeezing, average map: p = <<e^r, half the squeezing angle, e^(r_anc), eta_anc>>
 PrepNames   == {"Vacuum", "Coherent", "Squeezed", "DisplacedSqueezed", "Thermal"}
 MeasNames   == {"MeasureHomodyne", "MeasureHeterodyne"}
 MetaNames   == {"Del", "New"}
@@ -56,6 +57,13 @@ DispOf(op, k) ==
     [] op.name = "Zgate" -> <<Zero, RMul(sg, RDiv(op.p[1], k))>>
 
 SqCov(q, a) == LET S == Sq(q, a) IN MatMul(S, Transpose(S))
+\* measurement-based squeezing (average map, strawberryfields.ops.MSgate with avg = True): in the frame rotated by half the
+\* squeezing angle x -> x / q, p -> q p, with noise (1 - 1/q^2) / a^2 on x (finite ancilla squeezing) and
+\* (q^2 - 1) (1 - eta) / eta on p (ancilla detection efficiency)
+MSDiag(op)  == << <<RInv(op.p[1]), Zero>>, <<Zero, op.p[1]>> >>
+MSLin(op)   == MatMul(Rot(op.p[2]), MatMul(MSDiag(op), Rot(ANeg(op.p[2]))))
+MSNoiseX(op) == RDiv(RSub(One, RInv(RSq(op.p[1]))), RSq(op.p[3]))
+MSNoiseP(op) == RDiv(RMul(RSub(RSq(op.p[1]), One), RSub(One, op.p[4])), op.p[4])
 
 Apply(st, op, k) ==
   LET m == op.modes[1] IN
@@ -64,6 +72,9 @@ Apply(st, op, k) ==
     [] op.name = "LossChannel" -> Attenuate(st, m, op.p[1], RSub(One, RSq(op.p[1])))
     [] op.name = "ThermalLossChannel" ->
           Attenuate(st, m, op.p[1], RMul(RSub(One, RSq(op.p[1])), RAdd(RMul(Two, op.p[2]), One)))
+    [] op.name = "MSgate" ->
+          ApplySymp(AddNoise(ApplySymp(ApplySymp(st, <<m>>, Rot(ANeg(op.p[2]))), <<m>>, MSDiag(op)), m, MSNoiseX(op), MSNoiseP(op)),
+                    <<m>>, Rot(op.p[2]))
     [] op.name = "Vacuum"   -> SetMode(st, m, <<Zero, Zero>>, IdM(2))
     [] op.name = "Coherent" -> SetMode(st, m, <<RMul(Two, RMul(op.p[1], op.p[2][1])),
                                                 RMul(Two, RMul(op.p[1], op.p[2][2]))>>, IdM(2))
